@@ -39,6 +39,10 @@ CHECKS = {
             "exhaustive enumeration of short API histories that leave a basis (every iteration limit below the unlimited count, every valid status assignment via setBasis, every reduced-alphabet modification) on the real solver; invariant evaluated at every state with hasBasis(); exact regularity test and exact optimum for warm starts",
             "For every stride-th canonical LP of family Q and 7 parameter vectors: the basis after an unlimited solve (every status), after a solve with ITERLIMIT j for every j below the unlimited iteration count, after setBasis with EVERY valid status assignment (all regular bases from exact enumeration x all admissible nonbasic placements, with the LP inside and outside the solver), after write+readBasisFile and after each reduced-alphabet modification of a solved LP. At every such state: exactly one basic variable per row, admissible nonbasic statuses, per-variable queries == array query == basis-index query, private status mirrors sized like the LP, exact nonsingularity for solve-produced bases, setBasis/getBasis round trip, and warm starts in the same and in a new object reaching the exact status and optimum. Separate phase: exact solves with FORCEBASIC must return exactly the basic solution of the returned basis.",
             "Trusted: exact oracle and rational determinant. Four genuine defects are recorded in known_findings.json."),
+    "C09": ("model_checking", "DESIGN.md section 3 C09",
+            "bounded-exhaustive execution of the six scalers on bare LPs (bit-exact ldexp oracle) and exhaustive short histories through SoPlex under scaler x persistent scaling x simplifier with bit-for-bit accessor comparison, byte-for-byte file comparison and exact re-optimisation",
+            "A: every stride-th canonical LP of a family whose entries span 2^-20..2^19, each of the six scalers applied to a bare SPxLPBase: every scaled entry, bound, side and objective coefficient must equal ldexp(original, stored integer exponents) bit for bit, infinite bounds must stay infinite, all *Unscaled getters and unscaleLP() must reproduce the original bit for bit. B: LP x SCALER(7) x PERSISTENTSCALING(2) x simplifier(2): after optimize() every user-level accessor equals the reference model bit for bit, LP and MPS files are byte-identical to those of a never-scaled object, solution/ray/Farkas pass the exact certificate against the unscaled model; then every reduced-alphabet modification (thorough: a second one after an intermediate solve) with the same accessor / file / exact re-optimisation checks. C: 24-step cycle optimize / SCALER off / optimize / SCALER back with a bound change each step, crossing the stop-re-scaling threshold.",
+            "Trusted: memcmp on doubles, the dense reference model, the exact oracle."),
 }
 
 NOT_YET = {}
